@@ -1,5 +1,6 @@
 import EinoV.Basic.JsonUtil
 import EinoV.Model.C18
+import EinoV.Model.C18Shared
 import EinoV.Expected.C18
 
 namespace EinoV.Oracle.C18
@@ -101,6 +102,42 @@ def topoJson (T : Topo) : Json :=
     ("edges", J.mkArr (T.edges.map fun e => J.mkStrs [e.1, e.2])),
     ("branches", J.mkArr (T.branches.map fun b => Json.mkObj [("from", b.1), ("ends", J.mkStrs b.2)]))]
 
+def parseMode (s : String) : JE Mode :=
+  match s with
+  | "generate" => pure .generate
+  | "stream" => pure .stream
+  | m => throw s!"bad mode {m}"
+
+/-- the cells behind the caller's slice, `n` of them (the harness puts sentinel messages there) -/
+def spareCells (n : Nat) : List Msg :=
+  (List.range n).map fun i => { role := .user, content := s!"spare-{i}", calls := [], callId := "" }
+
+/-- case {"kind":"shared", orig, tools, rd, maxStep, modifier, checker, host, spare: n,
+    runs: [{mode, script}], sched: [run numbers]} → every run's `Run` in the interleaved
+    experiment of Model/C18Shared.lean, and whether the caller's backing array is intact -/
+def handleShared (c : Json) : JE Json := do
+  let F := Expected.C18.facts
+  let orig ← (← J.arr c "orig").mapM parseMsg
+  let tools ← (J.arrD c "tools").mapM parseTool
+  let rd ← (J.arrD c "rd").mapM J.asStr
+  let maxStep ← J.int c "maxStep"
+  let modifier ← parseModifier (J.strD c "modifier" "none")
+  let checker ← parseChecker (J.strD c "checker" "default")
+  let host ← parseHost (J.strD c "host" "agent")
+  let cfg : Config := { tools := lookupTool tools, returnDirectly := rd, maxStep := maxStep,
+                        modifier := modifier, checker := checker }
+  let spare := spareCells (J.natD c "spare" 0)
+  let specs ← (← J.arr c "runs").mapM fun r => do
+    let script ← (← J.arr r "script").mapM parseReply
+    let mode ← parseMode (← J.str r "mode")
+    pure ({ cfg := cfg, mode := mode, script := script } : RunSpec)
+  let sched ← (J.arrD c "sched").mapM J.asNat
+  let out := (runShared (F.forHost host) Expected.C18.memFacts (fun n => n) orig spare specs sched).out
+  pure <| Json.mkObj [
+    ("runs", J.mkArr (out.runs.map fun r => match r with | some r => runJson r | none => Json.null)),
+    ("callerIntact", Json.bool (out.callerArr == orig ++ spare)),
+    ("limit", match stepLimit (F.forHost host) cfg with | some n => (n : Json) | none => Json.null)]
+
 /-- case {"kind":"topology","rd":bool} → the model's topology table;
     case {"kind":"run", orig, script, tools, rd, maxStep, modifier, checker, host} → both modes
     (chunks: {content, calls, extras}; the calls of a chunk are deltas {id, name, args, index?},
@@ -110,6 +147,7 @@ def handle (c : Json) : JE Json := do
   match J.strD c "kind" "run" with
   | "topology" =>
     pure (topoJson (if J.boolD c "rd" false then F.topoRD else F.topoPlain))
+  | "shared" => handleShared c
   | _ =>
     let orig ← (← J.arr c "orig").mapM parseMsg
     let script ← (← J.arr c "script").mapM parseReply
